@@ -721,9 +721,9 @@ func (e *Exec) applyContract(callee *FuncInfo, call *ast.CallExpr, st *State, ct
 	} else {
 		e.note("callee without contract, results unconstrained: " + callee.Key)
 	}
-	// remember the error this call returned on this path (for the caller's `propagates` clauses); only top-level
-	// call sites of the function under verification
-	if ctx.frame.loopKey == "" {
+	// remember the error this call returned on this path (for the caller's `propagates` / `fails-only-through-calls`
+	// clauses), also for the call sites of helpers that are executed through their bodies
+	{
 		for i := 0; i < sig.Results().Len() && i < len(res); i++ {
 			if isErrorType(sig.Results().At(i).Type()) {
 				if st.callErrs == nil {
